@@ -99,181 +99,3 @@ Example ni_witness :
   role (nd (on_tick ni_env (erase_ro 100 ni_node))) = FOLLOWER /\ term (nd (on_tick ni_env (erase_ro 100 ni_node))) = 0.
 Proof. vm_compute. repeat split. Qed.
 
-(* ---- what does hold: the leader phase and an election that is not won alone commute with erasing x ---- *)
-Lemma erase_view : forall x n, ~ In x (others n) -> same_votersview n (erase_ro x n).
-Proof.
-  intros x n Hx. unfold erase_ro; cbn. repeat split; auto; intros y Hy; symmetry; apply aget_adel_other; intros ->; contradiction.
-Qed.
-
-Lemma filter_app_one : forall x os o, filter (not_to x) (os ++ [o]) = filter (not_to x) os ++ (if not_to x o then [o] else []).
-Proof. intros; rewrite filter_app; reflexivity. Qed.
-
-Lemma erase_tick_leader : forall e s x,
-  ~ In x (others (nd s)) -> erase_S x (tick_leader e s) = tick_leader e (erase_S x s).
-Proof.
-  intros e s x Hx. rewrite !tick_leader_eq.
-  change (role (nd (erase_S x s))) with (role (nd s)).
-  destruct (role (nd s) =? LEADER); [|reflexivity].
-  unfold commit_phase.
-  change (log (nd (erase_S x s))) with (log (nd s)). change (commit (nd (erase_S x s))) with (commit (nd s)).
-  pose proof (commit_loop_ext (Datatypes.S (N.to_nat (last_idx (log (nd s)) - commit (nd s)))) (commit (nd s)) (commit (nd s))
-                s (erase_S x s) (erase_view x (nd s) Hx)) as (E1 & E2).
-  destruct (commit_loop _ _ _ s) as [s1 nc]. destruct (commit_loop _ _ _ (erase_S x s)) as [s1' nc'].
-  cbn [fst snd] in E1, E2. subst nc'.
-  destruct E2 as [(-> & ->) | (-> & ->)]; [|reflexivity].
-  change (ok (erase_S x s)) with (ok s). destruct (ok s); [|reflexivity].
-  assert (erase_S x (store_commit nc s) = store_commit nc (erase_S x s)) as ES.
-  { unfold store_commit. change (commit (nd (erase_S x s))) with (commit (nd s)). destruct (_ =? nc); reflexivity. }
-  rewrite <- ES.
-  assert (~ In x (others (nd (store_commit nc s)))) as Hx'.
-  { unfold store_commit. destruct (_ =? nc); exact Hx. }
-  revert Hx'. generalize (store_commit nc s). clear. intros a Hx.
-  pose proof (erase_view x (nd a) Hx) as Hv.
-  destruct (fallback_phase_spec e a) as [(A1 & ->) | [(A1 & A2 & ->) | (A1 & A2 & ->)]];
-  destruct (fallback_phase_spec e (erase_S x a)) as [(B1 & ->) | [(B1 & B2 & ->) | (B1 & B2 & ->)]];
-    change (nd (erase_S x a)) with (erase_ro x (nd a)) in *; change (tnow (erase_S x a)) with (tnow a) in *;
-    rewrite (resp_missing_ext _ _ Hv) in A1; try congruence;
-    try (rewrite (fresh_count_ext _ _ _ Hv), (majority_others _ _ _ (proj1 Hv)) in A2; congruence);
-    try reflexivity.
-  unfold set_role; cbn. destruct (role (nd a) =? FOLLOWER); [reflexivity|].
-  unfold erase_S, emit, upd; cbn. rewrite filter_app_one. reflexivity.
-Qed.
-
-Lemma erase_emit : forall x o s, not_to x o = true -> erase_S x (emit o s) = emit o (erase_S x s).
-Proof.
-  intros x o s Ho. unfold erase_S, emit. cbn [nd outs set]. rewrite filter_app. cbn [filter]. rewrite Ho. reflexivity.
-Qed.
-
-Lemma erase_upd : forall x f s, (forall n, erase_ro x (f n) = f (erase_ro x n)) -> erase_S x (upd f s) = upd f (erase_S x s).
-Proof. intros x f s Hf. unfold erase_S, upd. cbn [nd outs set]. rewrite Hf. reflexivity. Qed.
-
-Lemma smem_sdel_other : forall x y l, y <> x -> smem y (sdel x l) = smem y l.
-Proof.
-  intros x y l Hne; induction l as [|a l IH]; cbn; [reflexivity|].
-  destruct (x =? a) eqn:E; cbn.
-  - apply N.eqb_eq in E; subst a. destruct (y =? x) eqn:E2; [apply N.eqb_eq in E2; contradiction | reflexivity].
-  - rewrite IH; reflexivity.
-Qed.
-
-Lemma erase_send : forall x a m s, a <> x -> erase_S x (send a m s) = send a m (erase_S x s).
-Proof.
-  intros x a m s Ha. unfold send. change (tconn (nd (erase_S x s))) with (sdel x (tconn (nd s))).
-  rewrite (smem_sdel_other x a _ Ha). destruct (smem a (tconn (nd s))) eqn:E; [|reflexivity].
-  apply erase_emit. cbn. destruct (a =? x) eqn:E2; [apply N.eqb_eq in E2; contradiction | reflexivity].
-Qed.
-
-Lemma erase_fold_send : forall x (f : nid -> msg) l s,
-  ~ In x l ->
-  erase_S x (fold_left (fun s y => send y (f y) s) l s) = fold_left (fun s y => send y (f y) s) l (erase_S x s).
-Proof.
-  intros x f l; induction l as [|a l IH]; intros s Hx; [cbn [fold_left]; reflexivity|].
-  assert (a <> x) as Ha by (intros ->; apply Hx; left; reflexivity).
-  cbn [fold_left]. rewrite IH by (intros H; apply Hx; right; exact H).
-  apply f_equal. apply erase_send; exact Ha.
-Qed.
-
-Lemma erase_fire : forall x c r e s, erase_S x (fire c r e s) = fire c r e (erase_S x s).
-Proof. intros; unfold fire; destruct c; try reflexivity. apply erase_emit; reflexivity. Qed.
-
-Lemma erase_fold_fire : forall x l s,
-  erase_S x (fold_left (fun s kv => fire (snd kv) 0 LEADER_CHANGED s) l s) =
-  fold_left (fun (s : S) (kv : N * cbref) => fire (snd kv) 0 LEADER_CHANGED s) l (erase_S x s).
-Proof.
-  intros x l; induction l as [|a l IH]; intros s; cbn [fold_left]; [reflexivity|].
-  rewrite IH, erase_fire. reflexivity.
-Qed.
-
-Lemma erase_on_leader_changed : forall x s, erase_S x (on_leader_changed s) = on_leader_changed (erase_S x s).
-Proof.
-  intros; unfold on_leader_changed. rewrite erase_upd by reflexivity. rewrite erase_fold_fire. reflexivity.
-Qed.
-
-Lemma erase_set_role : forall x r s, erase_S x (set_role r s) = set_role r (erase_S x s).
-Proof.
-  intros; unfold set_role; cbv zeta. change (role (nd (erase_S x s))) with (role (nd s)).
-  destruct (role (nd s) =? r).
-  - apply erase_upd; reflexivity.
-  - rewrite erase_emit by reflexivity. rewrite erase_upd by reflexivity. reflexivity.
-Qed.
-
-(* the part of tick_election before the majority test *)
-Definition election_start (e : env) (me : nid) (s : S) : S :=
-  let s := upd (fun n => n <| deadline := (tnow s + gen_timeout e)%Z |> <| leader := None |>) s in
-  let s := set_role CANDIDATE s in
-  let s := upd (fun n => n <| term := term n + 1 |> <| voted := Some me |> <| votes := 1 |>) s in
-  let n := nd s in
-  let s := fold_left (fun s x => send x (RequestVote (term n) (last_idx (log n)) (last_term (log n))) s) (others n) s in
-  on_leader_changed s.
-
-Lemma tick_election_eq : forall e s,
-  tick_election e s =
-  match self (nd s) with
-  | None => s
-  | Some me =>
-    if ((role (nd s) =? FOLLOWER) || (role (nd s) =? CANDIDATE)) && (deadline (nd s) <? tnow s)%Z && connected_to_anyone (nd s)
-    then let s1 := election_start e me s in if majority (votes (nd s1)) (nd s1) then become_leader e s1 else s1
-    else s
-  end.
-Proof. reflexivity. Qed.
-
-Lemma election_start_facts : forall e me s,
-  votes (nd (election_start e me s)) = 1 /\ others (nd (election_start e me s)) = others (nd s).
-Proof.
-  intros e me s. unfold election_start; cbv zeta.
-  match goal with |- context [on_leader_changed ?Y] =>
-    destruct (fr_on_leader_changed true Y) as (ex & _ & _ & C & _); destruct (core_fields _ _ C) as (_ & _ & _ & _ & -> & _);
-    assert (others (nd (on_leader_changed Y)) = others (nd Y)) as -> end.
-  { match goal with |- others (nd (on_leader_changed ?Y)) = _ => destruct (mq_on_leader_changed Y) as (M & _) end.
-    unfold mem_part in M. injection M as M1 _ _ _. exact M1. }
-  match goal with |- context [fold_left (fun s y => send y (@?f y) s) ?l ?Y] => rewrite !(nd_fold_send f l Y) end.
-  unfold set_role; cbv zeta. destruct (_ =? CANDIDATE); split; reflexivity.
-Qed.
-
-Lemma erase_election_start : forall e me s x,
-  ~ In x (others (nd s)) -> erase_S x (election_start e me s) = election_start e me (erase_S x s).
-Proof.
-  intros e me s x Hx. unfold election_start; cbv zeta.
-  rewrite erase_on_leader_changed. apply f_equal.
-  set (Y := upd (fun n => n <| term := term n + 1 |> <| voted := Some me |> <| votes := 1 |>)
-              (set_role CANDIDATE (upd (fun n => n <| deadline := (tnow s + gen_timeout e)%Z |> <| leader := None |>) s))).
-  assert (erase_S x Y =
-          upd (fun n => n <| term := term n + 1 |> <| voted := Some me |> <| votes := 1 |>)
-              (set_role CANDIDATE (upd (fun n => n <| deadline := (tnow (erase_S x s) + gen_timeout e)%Z |> <| leader := None |>) (erase_S x s)))) as EY.
-  { subst Y. rewrite erase_upd by reflexivity. rewrite erase_set_role. rewrite erase_upd by reflexivity. reflexivity. }
-  rewrite <- EY.
-  change (term (nd (erase_S x Y))) with (term (nd Y)). change (log (nd (erase_S x Y))) with (log (nd Y)).
-  change (others (nd (erase_S x Y))) with (others (nd Y)).
-  apply (erase_fold_send x (fun _ => RequestVote (term (nd Y)) (last_idx (log (nd Y))) (last_term (log (nd Y))))).
-  subst Y. unfold set_role; cbv zeta. destruct (_ =? CANDIDATE); exact Hx.
-Qed.
-
-Lemma erase_tick_election : forall e s x,
-  ~ In x (others (nd s)) -> majority 1 (nd s) = false ->
-  connected_to_anyone (erase_ro x (nd s)) = connected_to_anyone (nd s) ->
-  erase_S x (tick_election e s) = tick_election e (erase_S x s).
-Proof.
-  intros e s x Hx Hm Hc. rewrite !tick_election_eq.
-  change (self (nd (erase_S x s))) with (self (nd s)).
-  destruct (self (nd s)) as [me|]; [|reflexivity].
-  change (role (nd (erase_S x s))) with (role (nd s)). change (deadline (nd (erase_S x s))) with (deadline (nd s)).
-  change (tnow (erase_S x s)) with (tnow s). change (nd (erase_S x s)) with (erase_ro x (nd s)) at 1. rewrite Hc.
-  destruct (_ && _); [|reflexivity]. cbv zeta.
-  rewrite <- (erase_election_start e me s x Hx).
-  destruct (election_start_facts e me s) as (V & O).
-  assert (majority (votes (nd (election_start e me s))) (nd (election_start e me s)) = false) as M1.
-  { rewrite V. unfold majority in *. rewrite O. exact Hm. }
-  change (votes (nd (erase_S x (election_start e me s)))) with (votes (nd (election_start e me s))).
-  assert (majority (votes (nd (election_start e me s))) (nd (erase_S x (election_start e me s))) = false) as M2.
-  { rewrite V. unfold majority in *. change (others (nd (erase_S x (election_start e me s)))) with (others (nd (election_start e me s))).
-    rewrite O. exact Hm. }
-  rewrite M1, M2. reflexivity.
-Qed.
-
-Theorem C18_noninterference_partial : forall e s x,
-  ~ In x (others (nd s)) ->
-  erase_S x (tick_leader e s) = tick_leader e (erase_S x s) /\
-  (majority 1 (nd s) = false -> connected_to_anyone (erase_ro x (nd s)) = connected_to_anyone (nd s) ->
-   erase_S x (tick_election e s) = tick_election e (erase_S x s)).
-Proof.
-  intros e s x Hx. split; [apply erase_tick_leader; exact Hx | intros; apply erase_tick_election; assumption].
-Qed.
